@@ -773,7 +773,7 @@ pub fn def(tier: Tier) -> CheckDef {
         level: "exploration",
         rule: "accepted type-directed generated programs (a quarter annotation-erased), each subjected to 1-4 rewrites at generated sites: r1 consistent renaming of a subset of binders to fresh names from ASCII / keyword-like / non-ASCII pools; r2 redundant parentheses around any node; r3 an unused definition (value and non-value, annotated or not) wrapped around any node or inserted at any position of an existing group; r4 a node named by a definition (with and without annotation); r5 a node wrapped in an immediately applied annotated identity (at the root or where the type is evident); r6 `if true then e else e`; r7 two adjacent function definitions swapped (functions that mention each other only when both are fully annotated); a third of the base programs are groups at the boundary of the definition-order rule (functions in value and non-value form mentioning earlier, later and nested definitions) rewritten mostly at the roots of their definitions, the rewritten program being in the domain when it still satisfies the rule as documented (R-order); oracle (no reference semantics) = the rewritten program is accepted, gram's own conversion judges the two reported types equal, and the `step` loop ends the same way (same literal / same kind; structurally identical value for parentheses-only rewrites); `gram check` / `gram run` exit status and printed value compared on a sample; non-trivial = at least one rewrite site below the root; per-rewrite counts are in the evidence; distinct by program pair",
         assumptions: vec!["int / bool results of `gram run` print identically for both programs (no names involved)"],
-        idle_limit_s: 180,
+        idle_limit_s: 90,
         needs_cli: true,
         fuzz: None,
         parts: vec![
